@@ -131,7 +131,7 @@ func isBlockedState(st string) bool {
 
 // ---------------------------------------------------------------- operations
 
-var c09OpNames = []string{"run", "run-hold", "modinit", "resolve", "close", "waitdone", "close2"}
+var c09OpNames = []string{"run", "run-hold", "modinit", "modinit-go", "resolve", "close", "waitdone", "close2"}
 
 func (s *c09Sched) doOp(w *c09Worker, op string) (res string) {
 	defer func() {
@@ -149,6 +149,9 @@ func (s *c09Sched) doOp(w *c09Worker, op string) (res string) {
 		_, err = s.ctx.RunCode(s.holdCode, g, g, nil)
 	case "modinit":
 		_, err = s.ctx.ModuleInit(&py.ModuleImpl{Info: py.ModuleInfo{Name: fmt.Sprintf("m%d", w.id)}, Code: s.code})
+	case "modinit-go":
+		// a module implemented in Go only (no code body to run): still an execution request, admitted or refused like the others
+		_, err = s.ctx.ModuleInit(&py.ModuleImpl{Info: py.ModuleInfo{Name: fmt.Sprintf("g%d", w.id)}, Globals: py.StringDict{}})
 	case "resolve":
 		_, err = s.ctx.ResolveAndCompile(filepath.Join(s.dir, "prog.py"), py.CompileOpts{})
 	case "resolve-fault":
@@ -589,7 +592,7 @@ func TestC09(t *testing.T) {
 	stdlib.VerifYield = c09Yield
 	defer func() { stdlib.VerifYield = nil }()
 	dir, code, hold := c09Setup(r)
-	ops := []string{"run", "run-hold", "modinit", "resolve", "close", "waitdone"}
+	ops := []string{"run", "run-hold", "modinit", "modinit-go", "resolve", "close", "waitdone"}
 	opsRandom := append(append([]string(nil), ops...), "resolve-fault", "modinit-fault", "run-fault")
 	var cfgs [][][]string
 	for _, a := range ops {
@@ -605,7 +608,7 @@ func TestC09(t *testing.T) {
 	}
 	// scripts of two operations
 	cfgs = append(cfgs, [][]string{{"close", "run"}, {"run-hold"}}, [][]string{{"run", "close"}, {"close2", "run"}}, [][]string{{"close"}, {"run", "run"}}, [][]string{{"run-hold", "close"}, {"modinit", "waitdone"}},
-		[][]string{{"close", "close2"}, {"resolve"}}, [][]string{{"close"}, {"close2"}}, [][]string{{"close", "modinit"}, {"waitdone"}},
+		[][]string{{"close", "close2"}, {"resolve"}}, [][]string{{"close"}, {"close2"}}, [][]string{{"close", "modinit"}, {"waitdone"}}, [][]string{{"close", "modinit-go"}, {"waitdone"}}, [][]string{{"run-hold", "close"}, {"modinit-go", "run"}},
 		// fault sequences: an execution that fails or panics between admission and release must not leak the busy count
 		[][]string{{"resolve-fault", "close"}, {"waitdone"}}, [][]string{{"modinit-fault", "close"}, {"run"}}, [][]string{{"run-fault", "close"}, {"waitdone"}},
 		[][]string{{"resolve-fault"}, {"close"}}, [][]string{{"run-fault"}, {"close"}}, [][]string{{"modinit-fault"}, {"close"}})
